@@ -1,5 +1,6 @@
 import PartituraModel.Wire
 import PartituraModel.Model.PianoRollArgs
+import PartituraModel.Model.PianoRollSession
 
 open Wire Model Model.PianoRoll
 
@@ -112,6 +113,78 @@ def denseCols (rows ncols : Nat) (cells : List (Nat × Nat × Int)) : List (List
     if j < m.size then m.modify j (fun col => if p < col.size then col.set! p v else col) else m) empty
   filled.toList.map (·.toList)
 
+-- ------------------------------------------------------------------ sessions (round 3)
+
+def parseObj : P ArgObj := do
+  let t ← tok
+  match t with
+  | "num" => do let q ← rat; pure (.num q)
+  | "a0" => do let q ← rat; pure (.arr0 q)
+  | "arr" => do let xs ← list rat; pure (.arr xs)
+  | "seq" => do let xs ← list rat; pure (.seq xs)
+  | _ => P.fail
+
+/-- `-` (omitted / None), `auto`, or `@ i` (the object at address `i`) -/
+def parseRef : P (Bool × Option Nat) := do
+  let t ← tok
+  match t with
+  | "-" => pure (false, none)
+  | "auto" => pure (true, none)
+  | "@" => do let i ← nat; pure (false, some i)
+  | _ => P.fail
+
+def parseKwRef : P KwRef := do
+  let tu ← opt str
+  let td ← parseRef
+  let oo ← opt bool
+  let ns ← opt bool
+  let pm ← opt int
+  let tm ← parseRef
+  let ri ← opt bool
+  let pr ← opt bool
+  let rd ← opt bool
+  let rs ← opt bool
+  let et ← parseRef
+  let bi ← opt bool
+  pure { kw := { timeUnit := tu, timeDiv := if td.1 then some .auto else none, onsetOnly := oo, noteSep := ns,
+                 pitchMargin := pm, timeMargin := none, returnIdxs := ri, pianoRange := pr, removeDrums := rd,
+                 removeSilence := rs, endTime := none, binary := bi },
+         td := td.2, tm := tm.2, et := et.2 }
+
+def parsePcRef : P PcRef := do
+  let nz ← opt bool
+  let tu ← opt str
+  let td ← parseRef
+  let oo ← opt bool
+  let ns ← opt bool
+  let tm ← parseRef
+  let ri ← opt bool
+  let rs ← opt bool
+  let et ← parseRef
+  let bi ← opt bool
+  pure { kw := { normalize := nz, timeUnit := tu, timeDiv := if td.1 then some .auto else none, onsetOnly := oo,
+                 noteSep := ns, timeMargin := none, returnIdxs := ri, removeSilence := rs, endTime := none, binary := bi },
+         td := td.2, tm := tm.2, et := et.2 }
+
+def parseCall : P Call := do
+  let t ← tok
+  match t with
+  | "pr" => do let r ← parseKwRef; pure (.pr r)
+  | "pc" => do let r ← parsePcRef; pure (.pc r)
+  | _ => P.fail
+
+def fmtObj : ArgObj → String
+  | .num q => "num:" ++ fmtRat q
+  | .arr0 q => "a0:" ++ fmtRat q
+  | .arr xs => "arr:" ++ fmtList fmtRat xs
+  | .seq xs => "seq:" ++ fmtList fmtRat xs
+
+def fmtOut : Out → String
+  | .roll r ri => fmtRoll r ri
+  | .pc p => "pc(" ++ fmtInt p.cols ++ ")"
+  | .err => "err"
+  | .bad => "bad-request"
+
 def handle (ts : List String) : String :=
   match ts with
   | "pr" :: rest =>
@@ -128,6 +201,13 @@ def handle (ts : List String) : String :=
       match computePcKw kind arr kw with
       | none => "err"
       | some r => fmtPc r
+  | "sess" :: rest =>
+    match run (do let kind ← str; let arr ← parseArray; let objs ← list parseObj; let calls ← list parseCall
+                  pure (kind, arr, objs, calls)) rest with
+    | none => "bad-request"
+    | some (kind, arr, objs, calls) =>
+      let (outs, st) := runSession kind arr objs calls
+      ";".intercalate (outs.map fmtOut) ++ "#" ++ fmtList fmtObj st
   | "dec" :: rest =>
     match run (do let rows ← nat; let ncols ← nat; let td ← opt rat
                   let cells ← list (do let p ← nat; let j ← nat; let v ← int; pure (p, j, v))
